@@ -426,6 +426,8 @@ package multiplex
 //@ func (*datagramBufferedPipe).Close
 //@   requires d.rwCond != nil && holdsNone()
 //@   ensures d.closed && sameSlice(d.pLens, acq(d.pLens)) && buflen(d.buf) == acq(buflen(d.buf))
+//@   # blocked readers are woken (C12: every blocked read returns on teardown)
+//@   ensures wakes: ghostget("broadcasts", d.rwCond) > old(ghostget("broadcasts", d.rwCond))
 //@   flag noframe
 
 // ---------------------------------------------------------------------------------------------
